@@ -2,6 +2,7 @@
 from ..core import Rule
 from ..prog import *
 from ..facts import AnalysisBroken
+from ..interp import normx, nkey, run_all
 
 UNITS = ["bufferevent_ratelim"]
 LEVEL = "other"
@@ -65,13 +66,11 @@ def run(ctx, config):
                 r.bad("K7:ev_token_bucket_update_:channel-mix-in-test", "%s:%d" % (f.file, b.term["loc"][0]), f.name, "the overflow test mixes read and write fields: %s" % show(c))
     for ch in ("read", "write"):
         if ch not in tests:
-            r.bad("K4:ev_token_bucket_update_:%s:no-quotient-test" % ch, "%s:%d" % (f.file, f.line), f.name, "no (maximum - limit) / n_ticks < rate test for the %s channel" % ch)
+            r.inst(("test", ch), {"channel": ch, "test": None, "note": "quotient test not recognised syntactically; the arithmetic is decided by C21-refill-eval"}, nontrivial=False)
             continue
         b, shape, roles = tests[ch]
         r.inst(("test", ch), {"channel": ch, "test": show(b.term["cond"]), "shape_ok": shape})
-        if not shape:
-            r.bad("K4:ev_token_bucket_update_:%s:test-shape" % ch, "%s:%d" % (f.file, b.term["loc"][0]), f.name,
-                  "the %s overflow test is not (maximum - limit) / n_ticks < rate: %s" % (ch, show(b.term["cond"])))
+        # the shape is informational: whether the test is the right one is decided by evaluation (C21-refill-eval)
         tsucc = [s for s, l in b.succ if l == "T"][0]
         fsucc = [s for s, l in b.succ if l == "F"][0]
         for el, l, op, rhs in bstores:
@@ -143,4 +142,47 @@ def run(ctx, config):
             if not ok:
                 r2.bad("K7:ev_token_bucket_init_:clamp-channel", "%s:%d" % (h.file, b.term["loc"][0]), h.name, "a limit is clamped with the other channel's maximum")
     rules.append(r2)
+    rules.append(rule_refill_eval(P))
     return rules
+
+
+def rule_refill_eval(P):
+    """the refill arithmetic itself, by typed evaluation (C integer conversions, wrap-around) on a domain that contains the extremes"""
+    r = Rule("C21-refill-eval", "K6", "ev_token_bucket_update_ computes min(maximum, limit + n_ticks * rate) without wrap-around on the extreme-value domain", floor=300)
+    f = P.fn("ev_token_bucket_update_")
+    b = ["var", f.params[0][0], "param"]
+    c = ["var", f.params[1][0], "param"]
+    tick = f.params[2][0]
+    K = lambda base, fld, rec: nkey(["fld", base, "%s.%s" % (rec, fld), "->"])
+    MAXV = (1 << 63) - 1
+    nb = 0
+    for mx in (1, 1000, 1 << 62, MAXV):
+        for rate in sorted(set(x for x in (1, 1000, mx) if 1 <= x <= mx)):
+            for lim in sorted(set(x for x in (-(1 << 63) + 1, -(1 << 62), -4000, -1, 0, mx - 1, mx) if x <= mx)):
+                for n in (0, 1, 3, (1 << 31) - 1, 1 << 31):
+                    for ch in ("read", "write"):
+                        oth = "write" if ch == "read" else "read"
+                        last = 0xfffffff0
+                        env = {"#typed": 1, b[1]: 1, c[1]: 2, tick: (last + n) & 0xffffffff,
+                               K(b, "last_updated", "ev_token_bucket"): last,
+                               K(b, ch + "_limit", "ev_token_bucket"): lim, K(b, oth + "_limit", "ev_token_bucket"): 7,
+                               K(c, ch + "_maximum", "ev_token_bucket_cfg"): mx, K(c, ch + "_rate", "ev_token_bucket_cfg"): rate,
+                               K(c, oth + "_maximum", "ev_token_bucket_cfg"): 50, K(c, oth + "_rate", "ev_token_bucket_cfg"): 5}
+                        outs = [o for o in run_all(f, (f.entry, 0), env, lambda el: False, P, lambda el, e_: None, max_steps=200) if not (o.kind == "exit" and o.why == "noreturn")]
+                        if len(outs) != 1 or outs[0].kind != "ret":
+                            r.brk("ev_token_bucket_update_ not evaluable (max=%d rate=%d limit=%d n=%d): %s" % (mx, rate, lim, n, [(o.kind, o.why) for o in outs][:2]))
+                            return r
+                        o = outs[0]
+                        got = o.env.get(K(b, ch + "_limit", "ev_token_bucket"))
+                        got_o = o.env.get(K(b, oth + "_limit", "ev_token_bucket"))
+                        if n == 0 or n > 0x7fffffff:
+                            want, want_o = lim, 7
+                        else:
+                            want = min(mx, lim + n * rate)
+                            want_o = min(50, 7 + n * 5)
+                        r.inst((mx, rate, lim, n, ch), {"channel": ch, "maximum": mx, "rate": rate, "limit": lim, "ticks": n, "new_limit": got, "exact": want})
+                        if (got != want or got_o != want_o) and nb < 6:
+                            nb += 1
+                            r.bad("K6:ev_token_bucket_update_:%s:refill-arithmetic" % ch, "%s:%d" % (f.file, f.line), f.name,
+                                  "%s channel: maximum=%d rate=%d limit=%d after %d ticks becomes %s (other channel %s); exact arithmetic gives %d (other %d)" % (ch, mx, rate, lim, n, got, got_o, want, want_o))
+    return r
